@@ -383,6 +383,10 @@ void Transportation1dSolver::checkSolutionOptimal(const Solution &alloc) const {
         snk = nxt - 1;
         break;
       }
+      if (nxt + 1 == nbSinks()) {
+        // The last sink is full: nothing can be moved further right
+        break;
+      }
       gain += gainRight[nxt];
     }
   }
@@ -399,6 +403,10 @@ void Transportation1dSolver::checkSolutionOptimal(const Solution &alloc) const {
           throw std::runtime_error("Found an improving left move");
         }
         snk = nxt + 1;
+        break;
+      }
+      if (nxt == 0) {
+        // The first sink is full: nothing can be moved further left
         break;
       }
       gain += gainLeft[nxt];
